@@ -34,6 +34,7 @@ type c17Case struct {
 	Big         bool   `json:"big,omitempty"`         // slice size 96 and larger files, so that the goroutine option really splits the work
 	Blocks      int    `json:"blocks,omitempty"`      // recovery blocks / volumes (default 3)
 	PriorBlocks int    `json:"priorblocks,omitempty"` // history inside the process: an unrelated Create with this many blocks ran just before
+	PriorGen    bool   `json:"priorgen,omitempty"`    // history inside the process (with Look): a Create of ANOTHER GENERATION of the same inputs - same names, lengths and first 16 KiB, other tails - ran just before in a directory of its own
 	Names       int    `json:"names,omitempty"`       // 1: directory names that are string prefixes of sibling file names (photos/ and photos.txt, photos/deep/ and photos/deep.bak)
 	Look        bool   `json:"look,omitempty"`        // look-alike inputs: every file 17000 bytes with the same first 16 KiB, different tails (slice size 1000)
 	DupK        int    `json:"dupk,omitempty"`        // with Dup: which input is mentioned twice (index into the listed order)
@@ -242,6 +243,48 @@ func c17CreateIn(c *c17Case, seed int64, r *core.Rec, stale map[string][]byte) (
 			at := c.DupAt - 1
 			args = append(args[:at], append([]string{extra}, args[at:]...)...)
 		}
+	}
+	if c.Via != "cli" && (c.PriorBlocks > 0 || c.PriorGen) {
+		// the earlier Create of this process: other inputs with another block count, or another generation of these inputs
+		priorDir := filepath.Join(root, "prior")
+		var pin []string
+		for i := 0; i < c.N; i++ {
+			name := c17Names[i]
+			if c.Fmt == "p1" {
+				name = filepath.Base(name)
+			}
+			pp := filepath.Join(priorDir, name)
+			os.MkdirAll(filepath.Dir(pp), 0755)
+			var b []byte
+			if c.PriorGen {
+				b, _ = ioutil.ReadFile(abs[i%len(abs)])
+				b = append([]byte{}, b...)
+				alt := scen.Content("uniq", seed+777, i, len(b), 4)
+				if len(b) > 16384 {
+					copy(b[16384:], alt[16384:])
+				}
+				pp = filepath.Join(priorDir, strings.TrimPrefix(abs[i%len(abs)], setDir+"/"))
+				os.MkdirAll(filepath.Dir(pp), 0755)
+			} else {
+				b = scen.Content("uniq", seed+55, i, c17Sizes[i]+3, 4)
+			}
+			ioutil.WriteFile(pp, b, 0644)
+			pin = append(pin, pp)
+		}
+		pb := c.PriorBlocks
+		if pb == 0 {
+			pb = c.blocks()
+		}
+		var perr error
+		if c.Fmt == "p2" {
+			perr = par2.Create(filepath.Join(priorDir, "s.par2"), pin, par2.CreateOptions{SliceByteCount: c.slice(), NumParityShards: pb, NumGoroutines: c.G})
+		} else {
+			perr = par1.Create(filepath.Join(priorDir, "s.par"), pin, par1.CreateOptions{NumParityFiles: pb})
+		}
+		if perr != nil {
+			return nil, fmt.Errorf("earlier Create failed: %v", perr)
+		}
+		r.AddTransitions(1)
 	}
 	var err error
 	if c.Via == "cli" {
@@ -585,6 +628,7 @@ func c17Gen(g *core.Gen) {
 				for pm := 0; pm < np; pm++ {
 					for _, gg := range []int{1, 3} {
 						g.Emit(&c17Case{Fmt: f, N: n, Perm: pm, G: gg, Cwd: cwds[pm%3], Spell: spells[pm%5], Via: "lib", Look: true})
+						g.Emit(&c17Case{Fmt: f, N: n, Perm: pm, G: gg, Cwd: cwds[pm%3], Spell: spells[pm%5], Via: "lib", Look: true, PriorGen: true})
 					}
 				}
 			}
